@@ -404,8 +404,22 @@ pub fn check_input(rep: &mut Report, b: &[u8], label: &str, rng: &mut StdRng) ->
         viol(rep, "re-encode", "length-field", format!("re-encoded {n} bytes but messageLength field says {}", u16::from_be_bytes([s1[2], s1[3]])));
     }
     if out0[..n] != outf[..n] {
-        // reserved bytes left unwritten: not demanded by the property ("reserved bits aside")
+        // reserved bytes left unwritten are not demanded by the property ("reserved bits aside"),
+        // but every defined field must come out of the encoder whatever the buffer held before
         rep.observe("re-encoded bytes depend on previous buffer contents (unwritten reserved bytes)");
+        let sf = &outf[..n.min(outf.len())];
+        match guarded(|| FuzzMessage::deserialize(sf).ok().map(|m| m == msg)) {
+            Ok(Some(true)) => rep.ev("dirty_buffer_roundtrip"),
+            Ok(Some(false)) => viol(rep, "roundtrip", "unequal-into-dirty-buffer", "decode(encode(m)) != m when the output buffer held 0xff bytes before: the encoder leaves a defined field to the buffer's previous contents".into()),
+            Ok(None) => viol(rep, "roundtrip", "undecodable-into-dirty-buffer", "encode(m) into a buffer that held 0xff bytes is rejected by the decoder".into()),
+            Err(p) => viol(rep, "total", &format!("{}|{}", p.site(), p.class()), format!("deserialize of bytes re-encoded into a dirty buffer panicked: {}", p.message)),
+        }
+        if let (Ok(ri), Ok(rf)) = (Msg::decode(&b[..l]), Msg::decode(sf)) {
+            if let Some(d) = defined_diff(&ri, &rf) {
+                let field_name = d.split(':').next().unwrap_or("").to_string();
+                viol(rep, "lossless-into-dirty-buffer", &format!("{}|{}", type_name(mt), field_name), d);
+            }
+        }
     }
     match guarded(|| FuzzMessage::deserialize(s1).ok().map(|m| m == msg)) {
         Ok(Some(true)) => {}
